@@ -2384,6 +2384,144 @@ theorem storable_bal {F} (env : Env F) (cfg : RWCfg) (a : AttrD) (v : MVal F) (h
     simp only [List.all_cons, Bool.and_eq_true]
     exact ⟨by decide, all_imp (fun c => digit_balc) _ hdig⟩
 
+/-! #### … and for select values and aggregates: the `Bal` side condition holds for everything the writer emits -/
+
+theorem kwname_balc {c : Byte} (h : (isUpper c || isDigit c || c == 95) = true) : balc c = true := by
+  simp only [balc, plainc, Bool.and_eq_true, bne_iff_ne, ne_eq]
+  repeat' constructor
+  all_goals (intro hc; subst hc; revert h; decide)
+
+theorem Bal.prefix_balc : ∀ (t : List Byte), t.all balc = true → ∀ {b : List Byte}, Bal b → Bal (t ++ b) := by
+  intro t
+  induction t with
+  | nil => intro _ b hb; exact hb
+  | cons c t ih =>
+    intro h b hb
+    simp only [List.all_cons, Bool.and_eq_true, balc, bne_iff_ne, ne_eq] at h
+    exact Bal.plain c _ h.1.1.2 h.1.2 h.1.1.1 (ih (by simpa [balc] using h.2) hb)
+
+/-- the text written for the value of a typed select is balanced -/
+theorem leaf_bal {F} (env : Env F) (m : SelMember) (a : Atom F) (tok : List Byte) (h : StorableLeaf env m a tok) : Bal tok := by
+  cases h with
+  | int hm i hlo hhi => exact bal_of_balc _ (isInteger_balc _ (showInt_spec i).1)
+  | real hm v hst hnn hbuf => exact bal_of_balc _ (isReal_balc _ (writeReal_token env.ops v hst).1)
+  | str hm b hb => exact Bal.str b [] hb Bal.nil (by simp)
+  | bin hm hex hne hhex =>
+    refine bal_of_balc _ ?_
+    simp only [List.all_cons, List.all_append, List.all_nil, Bool.and_true, Bool.and_eq_true]
+    exact ⟨by decide, all_imp (fun c => xdigit_balc) _ hhex, by decide⟩
+  | enum het i name hget hne hname hfind hset =>
+    refine bal_of_balc _ ?_
+    simp only [List.all_cons, List.all_append, List.all_nil, Bool.and_true, Bool.and_eq_true]
+    exact ⟨by decide, all_imp (fun c => pw_balc) _ hname, by decide⟩
+
+/-- the text the node writer emits for an aggregate element is balanced -/
+theorem elem_bal {F} (env : Env F) (cfg : RWCfg) (d : Dict) (ety : ElemTy) (e : Elem F) (h : StorableElem env ety e) :
+    Bal (nodeText env.ops cfg d ety e) := by
+  cases h with
+  | int i hlo hhi =>
+    have ht : nodeText env.ops cfg d .integer (.atom (.int i) : Elem F) = showInt i := by simp [nodeText, nodeWrite, writeAtomCore]
+    rw [ht]; exact bal_of_balc _ (isInteger_balc _ (showInt_spec i).1)
+  | real v hst hnn hbuf =>
+    have ht : nodeText env.ops cfg d .real (.atom (.real v) : Elem F) = writeReal env.ops v := by simp [nodeText, nodeWrite, writeAtomCore]
+    rw [ht]; exact bal_of_balc _ (isReal_balc _ (writeReal_token env.ops v hst).1)
+  | str b hb =>
+    have ht : nodeText env.ops cfg d .string (.atom (.str (39 :: (b ++ [39]))) : Elem F) = 39 :: (b ++ [39]) := by simp [nodeText, nodeWrite]
+    rw [ht]; exact Bal.str b [] hb Bal.nil (by simp)
+  | bin hex hne hhex =>
+    have he : hex.isEmpty = false := by cases hex <;> simp_all
+    have ht : nodeText env.ops cfg d .binary (.atom (.bin hex) : Elem F) = 34 :: (hex ++ [34]) := by
+      simp [nodeText, nodeWrite, writeAtomCore, writeBinary, he]
+    rw [ht]
+    refine bal_of_balc _ ?_
+    simp only [List.all_cons, List.all_append, List.all_nil, Bool.and_true, Bool.and_eq_true]
+    exact ⟨by decide, all_imp (fun c => xdigit_balc) _ hhex, by decide⟩
+  | enum ty het i name hget hne hname hfind hset =>
+    have ht : nodeText env.ops cfg d ety (.atom (.enum i) : Elem F) = 46 :: (name ++ [46]) := by
+      rcases het with rfl | rfl | ⟨items, rfl⟩ <;> simp only [enumKindOf, EnumKind.table] at hget <;>
+        simp [nodeText, nodeWrite, writeAtomCore, enumTable, EnumKind.table, List.getD, hget]
+    rw [ht]
+    refine bal_of_balc _ ?_
+    simp only [List.all_cons, List.all_append, List.all_nil, Bool.and_true, Bool.and_eq_true]
+    exact ⟨by decide, all_imp (fun c => pw_balc) _ hname, by decide⟩
+  | ref tg id h0 hhi hfound =>
+    obtain ⟨ds, hds, _, hdig, _⟩ := showInt_nonneg' id h0
+    have ht : nodeText env.ops cfg d (.entity tg) (.atom (.ref id) : Elem F) = 35 :: ds := by
+      simp [nodeText, nodeWrite, writeAtomCore, hds]
+    rw [ht]
+    refine bal_of_balc _ ?_
+    simp only [List.all_cons, Bool.and_eq_true]
+    exact ⟨by decide, all_imp (fun c => digit_balc) _ hdig⟩
+
+/-- elements without layout, separated by commas, closed by `)`: balanced up to the `)` -/
+theorem renderElemsG_bal {F} : ∀ (es : List (ElemG F)), es ≠ [] → (∀ e ∈ es, e.before = [] ∧ e.after = [] ∧ Bal e.tok) →
+    ∃ inner, renderElemsG es = inner ++ [41] ∧ Bal inner := by
+  intro es
+  induction es with
+  | nil => intro h; exact absurd rfl h
+  | cons e t ih =>
+    intro _ hall
+    obtain ⟨hb, ha, htok⟩ := hall e (by simp)
+    cases t with
+    | nil => exact ⟨e.tok, by simp [renderElemsG, hb, ha], htok⟩
+    | cons f t' =>
+      obtain ⟨inner', he, hbal⟩ := ih (List.cons_ne_nil _ _) (fun x hx => hall x (by simp [hx]))
+      exact ⟨e.tok ++ 44 :: inner', by simp [renderElemsG, hb, ha, he] , Bal.append_comma htok hbal⟩
+
+/-- **every text `STEPattribute::STEPwrite` emits for a stored value is balanced** -/
+theorem storable_bal_all {F} (env : Env F) (cfg : RWCfg) (hsa : cfg.stringNodeAppends = false) (a : AttrD) (v : MVal F)
+    (h : Storable env a v) : Bal (writeAttr env.ops cfg env.dict a v) := by
+  cases h with
+  | aggr ety hty hder hred es hes =>
+    have : writeAttr env.ops cfg env.dict a (.aggr es : MVal F) = aggrTextG (es.map (elemOf env.ops cfg env.dict ety)) [] := by
+      simp only [writeAttr, hty]
+      rw [C01_aggregate_written_elementwise env.ops cfg env.dict ety es (Or.inl hsa), aggrTextG_plain]
+    rw [this]
+    cases es with
+    | nil => exact Bal.nest [] [] Bal.nil Bal.nil
+    | cons e0 et =>
+      obtain ⟨inner, he, hb⟩ := renderElemsG_bal ((e0 :: et).map (elemOf env.ops cfg env.dict ety)) (by simp)
+        (by
+          intro x hx
+          obtain ⟨y, hy, rfl⟩ := List.mem_map.mp hx
+          exact ⟨rfl, rfl, elem_bal env cfg env.dict ety y (hes y hy)⟩)
+      show Bal (40 :: renderElemsG ((e0 :: et).map (elemOf env.ops cfg env.dict ety)))
+      rw [he]
+      exact Bal.nest inner [] hb Bal.nil
+  | selTyped n hty hder hred sd hsd m hmem hne hfind hkw av tok hleaf =>
+    obtain ⟨n0, ns, hnb, hu0, hus, hback⟩ := hkw
+    obtain ⟨hw, _⟩ := storableLeaf_spec env m av tok hleaf
+    have hmt : memberTy env.dict (.select n) m.name = m.ty := by simp [memberTy, hsd, hmem]
+    have : writeAttr env.ops cfg env.dict a (.one (.sel m.name av) : MVal F) = selText n0 ns [] [] tok [] := by
+      simp only [writeAttr, hty, writeElemAttr, writeSelect, hmt]
+      cases hmty : m.ty <;> simp_all [ElemTy.isEntity, selText]
+    rw [this]
+    have hkb : (n0 :: ns).all balc = true := by
+      simp only [List.all_cons, Bool.and_eq_true]
+      exact ⟨kwname_balc (by simp [hu0]), all_imp (fun c hc => kwname_balc hc) _ hus⟩
+    have : selText n0 ns [] [] tok [] = (n0 :: ns) ++ (40 :: (tok ++ 41 :: [])) := by simp [selText]
+    rw [this]
+    exact Bal.prefix_balc _ hkb (Bal.nest tok [] (leaf_bal env m av tok hleaf) Bal.nil)
+  | selRef n hty hder hred sd hsd m hmem tg hent id h0 hhi hasg =>
+    obtain ⟨ds, hds, _, hdig, _⟩ := showInt_nonneg id h0
+    have hmt : memberTy env.dict (.select n) m.name = m.ty := by simp [memberTy, hsd, hmem]
+    have : writeAttr env.ops cfg env.dict a (.one (.sel m.name (.ref id)) : MVal F) = 35 :: ds := by
+      simp [writeAttr, hty, writeElemAttr, writeSelect, hmt, hent, writeAtomCore, hds]
+    rw [this]
+    refine bal_of_balc _ ?_
+    simp only [List.all_cons, Bool.and_eq_true]
+    exact ⟨by decide, all_imp (fun c => digit_balc) _ hdig⟩
+  | null hopt hder hred => exact storable_bal env cfg a _ (Storable.null a hopt hder hred) (by
+      unfold nullOf; split <;> (try split) <;> simp [PlainVal])
+  | derived hder hred => exact storable_bal env cfg a _ (Storable.derived a hder hred) trivial
+  | int hty hder hred i hlo hhi => exact storable_bal env cfg a _ (Storable.int a hty hder hred i hlo hhi) trivial
+  | str hty hder hred b hb => exact storable_bal env cfg a _ (Storable.str a hty hder hred b hb) trivial
+  | bin hty hder hred hex hne hhex => exact storable_bal env cfg a _ (Storable.bin a hty hder hred hex hne hhex) trivial
+  | real hty hder hred v hst hnn hbuf => exact storable_bal env cfg a _ (Storable.real a hty hder hred v hst hnn hbuf) trivial
+  | enum ty hty het hder hred i name hget hne hname hfind hset =>
+    exact storable_bal env cfg a _ (Storable.enum a ty hty het hder hred i name hget hne hname hfind hset) trivial
+  | ref tg hty hder hred id h0 hhi hfound => exact storable_bal env cfg a _ (Storable.ref a tg hty hder hred id h0 hhi hfound) trivial
+
 /-- … and so is the parameter list written for a part whose values are of plain kinds: the `Bal` side condition of
     `StorablePart` holds -/
 theorem storableRec_bal {F} (env : Env F) (cfg : RWCfg) (as : List AttrD) (vs : List (MVal F)) (h : StorableRec env as vs)
@@ -2403,6 +2541,37 @@ theorem storableRec_bal {F} (env : Env F) (cfg : RWCfg) (as : List AttrD) (vs : 
     rw [hq] at he
     simp only [paramsOf, hq, renderParams, paramOf, List.nil_append, he]
     simp
+
+/-- **the parameter text the writer emits for a part is balanced** (`C01_`-export of the side condition of `StorablePart`): for
+    every attribute / value list of the kinds of `Storable` - selects and aggregates included - what
+    `STEPcomplex::WriteExtMapEntities` writes between the part's parentheses is balanced text (`Bal`: strings closed,
+    parentheses matched, no `;`, `/` or NUL outside strings), i.e. what `SkipSimpleRecord` in pass 1 steps over.  With
+    this the `Bal` hypothesis of `StorablePart` is no assumption: `storablePart_of_rec`. -/
+theorem C01_written_part_text_is_balanced {F} (env : Env F) (cfg : RWCfg) (hsa : cfg.stringNodeAppends = false)
+    (as : List AttrD) (vs : List (MVal F)) (h : StorableRec env as vs) :
+    ∃ inner, renderParams (paramsOf env.ops cfg env.dict as vs) = inner ++ [41] ∧ Bal inner := by
+  induction h with
+  | one a v h =>
+    exact ⟨writeAttr env.ops cfg env.dict a v, by simp [paramsOf, renderParams, paramOf], storable_bal_all env cfg hsa a v h⟩
+  | cons a v as vs h ht ih =>
+    obtain ⟨inner', he, hb⟩ := ih
+    have hne : ∃ q qs, paramsOf env.ops cfg env.dict as vs = q :: qs := by
+      cases ht with
+      | one a' v' h' => exact ⟨_, _, rfl⟩
+      | cons a' v' as' vs' h' ht' => exact ⟨_, _, rfl⟩
+    obtain ⟨q, qs, hq⟩ := hne
+    refine ⟨writeAttr env.ops cfg env.dict a v ++ 44 :: inner', ?_, Bal.append_comma (storable_bal_all env cfg hsa a v h) hb⟩
+    rw [hq] at he
+    simp only [paramsOf, hq, renderParams, paramOf, List.nil_append, he]
+    simp
+
+/-- every part without own attributes, or with values of the kinds of `Storable`, is a `StorablePart` -/
+theorem storablePart_of_rec {F} (env : Env F) (cfg : RWCfg) (hsa : cfg.stringNodeAppends = false) (p : MPart F)
+    (hkw : KeywordName p.name) (ed : EntityD) (hent : env.dict.entity? p.name = some ed)
+    (hcase : (ed.ownAttrs = [] ∧ p.vals = []) ∨ StorableRec env ed.ownAttrs p.vals) : StorablePart env cfg p := by
+  rcases hcase with h | h
+  · exact ⟨hkw, ed, hent, Or.inl h⟩
+  · exact ⟨hkw, ed, hent, Or.inr ⟨h, C01_written_part_text_is_balanced env cfg hsa ed.ownAttrs p.vals h⟩⟩
 
 /-- a part whose values are of plain kinds is a `StorablePart` -/
 theorem storablePart_of_plain {F} (env : Env F) (cfg : RWCfg) (p : MPart F) (hkw : KeywordName p.name) (ed : EntityD)
